@@ -376,6 +376,10 @@ def host_main(case_path, out_path):
         slow_main = os.path.join(flagdir, 'slow_main.py')
         with open(slow_main, 'w') as f:
             f.write(SLOW_MAIN)
+        with open(os.path.join(flagdir, 'life_modx.py'), 'w') as f:      # a module that calls sys.exit() when imported in a spawned child
+            f.write(TG.LIFE_MODX)
+        sys.path.insert(0, flagdir)
+        os.environ['PYTHONPATH'] = os.pathsep.join([flagdir, os.environ['PYTHONPATH']])
         expect_id = None
         if kind == 'remote':
             from pyworkers.remote import RemoteWorker
@@ -392,6 +396,22 @@ def host_main(case_path, out_path):
                 s_.bind(('127.0.0.1', 0))
                 host = s_.getsockname()
                 s_.close()
+            elif step == 'kill_info':
+                # a REAL server (own process) that kills itself exactly when it is about to send the runtime info
+                af = os.path.join(flagdir, 'server.addr')
+                sp = subprocess.Popen([sys.executable, '-c', 'from vf.drivers._life_targets import suicidal_server; suicidal_server(%r)' % af],
+                                      stdout=subprocess.DEVNULL, stderr=subprocess.DEVNULL)
+                t0 = time.monotonic()
+                while not os.path.exists(af):
+                    if time.monotonic() - t0 > 15 or sp.poll() is not None:
+                        raise RuntimeError('the self-killing server did not come up')
+                    time.sleep(0.01)
+                a_, p_, _pid = open(af).read().split()
+                host = (a_, int(p_))
+
+                class _Srv:
+                    pid = int(_pid)
+                killed_srv = _Srv()
             else:
                 from pyworkers.remote_server import spawn_server
                 srv = spawn_server(('127.0.0.1', 0))
@@ -427,12 +447,18 @@ def host_main(case_path, out_path):
                 if step == 'unknown_ctx':
                     kw['context'] = 'no-such-context'
             tgt = TG.pers_target if pers else (TG.quick_ret if (step.startswith('rinfo') and case.get('variant') != 'long') else TG.coop_loop)
+            if step == 'bk_baseexc':
+                import life_modx
+                tgt = life_modx.work          # unpickling it in the backend raises SystemExit
             make = lambda: cls(target=tgt, host=host, name='csW', **kw)  # noqa
         else:
             from pyworkers.process import ProcessWorker
             from pyworkers.persistent_process import PersistentProcessWorker
             if step == 'healthy':
                 cls, tgt = (PersistentProcessWorker if pers else ProcessWorker), (TG.pers_target if pers else TG.coop_loop)
+            elif case.get('variant') == 'modexit':
+                import life_modx
+                cls, tgt = (PersistentProcessWorker if pers else ProcessWorker), life_modx.work
             elif case.get('variant') == 'ctrl':
                 cls, tgt = (TG.CtrlExitPersistentProcessWorker if pers else TG.CtrlExitProcessWorker), TG.coop_loop
             else:
@@ -567,10 +593,14 @@ def _cases_from_paths(paths, tier):
                 else:
                     add(kind=kind, pers=pers, step=st, how=how, server='na', variant='unpickle')
                     add(kind=kind, pers=pers, step=st, how=how, server='na', variant='ctrl')
+                    add(kind=kind, pers=pers, step=st, how=how, server='na', variant='modexit')
             continue
         if st == 'refuse_data':
             add(kind=kind, pers='F', step=st, how=how, server='none')
         elif st == 'unknown_ctx':
+            for pers in ('F', 'T'):
+                add(kind=kind, pers=pers, step=st, how=how, server='real')
+        elif st == 'bk_baseexc':
             for pers in ('F', 'T'):
                 add(kind=kind, pers=pers, step=st, how=how, server='real')
         elif st.startswith('kill_'):
@@ -677,6 +707,12 @@ def run(prop, tier, replay=None):
     if r.error:
         raise MachineryError('ClientStart.tla violates its own properties: %s\n%s' % (r.error, '\n'.join(r.trace[:60])))
     wit = {}
+    for nm_, kw_, why in (('whatif_gofirst', dict(GoFirst='TRUE'), 'the go-ahead precedes the runtime-info frame'),
+                          ('pre_basereport', dict(Fix='FixNoBase'), 'the tree as it is: a BaseException during the backend start-up is not reported')):
+        rw = tlc.run('ClientStartMC', cfg_text=_mc_cfg(**kw_), name=nm_, must_complete=False, workers=2)
+        if rw.error != 'temporal':
+            raise MachineryError('%s (%s) is not rejected by liveness: %r' % (nm_, why, rw.error))
+        ev.add_tlc('%s: %s (must be rejected)' % (nm_, why), rw, role='vacuity')
     rw = tlc.run('ClientStartMC', cfg_text=_mc_cfg(Fix='FixNoSentinel'), name='pre_sentinel', must_complete=False, workers=2)
     if rw.error != 'invariant:Inv_NotRegistered':
         raise MachineryError('the variant without the sentinel fix (the tree as it is) is not rejected by NotRegistered: %r' % rw.error)
@@ -709,7 +745,7 @@ def run(prop, tier, replay=None):
         wit[w] = 'reached'
     ev.cov['witnesses'] = wit
     allowed = {}
-    for label, fx in (('pre', 'FixNone'), ('fix', 'FixAll'), ('cli', 'FixNoSrv'), ('srv', 'FixNoReport')):
+    for label, fx in (('pre', 'FixNone'), ('fix', 'FixAll'), ('cli', 'FixNoSrv'), ('srv', 'FixNoReport'), ('nobase', 'FixNoBase')):
         cfg = _mc_cfg(Fix=fx).replace('PROPERTY Live_Returns', 'INVARIANT PathDump').replace('SPECIFICATION Spec', 'INIT Init\nNEXT Next').replace('INVARIANT Inv_NotRegistered\n', '').replace('INVARIANT Inv_DataClosed\n', '')
         rp_ = tlc.run('ClientStartMC', cfg_text=cfg, workers=1, name='paths_' + label)
         if rp_.error:
@@ -761,7 +797,7 @@ def run(prop, tier, replay=None):
 
     # ---- 4. conformance: which model explains every outcome ----
     fit = {}
-    for label in ('pre', 'fix', 'cli', 'srv'):
+    for label in ('pre', 'fix', 'cli', 'srv', 'nobase'):
         fit[label] = sum(1 for rec in records
                          if rec['obs']['outcome'] in allowed[label].get(_mkey(rec['scn']), ()))
     best = max(fit, key=lambda k: fit[k])
